@@ -40,7 +40,7 @@ macro "m3simp" : tactic => `(tactic|
     ofNat_real, ofNat_real_zero, ofNat_real_one, sci_real, sin_real, cos_real, tan_real, sqrt_real, acos_real, pi_real, M3.mk.injEq, V3.mk.injEq, V6.mk.injEq, M6.mk.injEq, T4.mk.injEq])
 
 /-- coordinates, split conjunctions, close by `ring` -/
-macro "m3ring" : tactic => `(tactic| (m3simp; (try constructorm* _ ∧ _) <;> (first | exact True.intro | ring | skip)))
+macro "m3ring" : tactic => `(tactic| (m3simp <;> (try constructorm* _ ∧ _) <;> (first | exact True.intro | ring | skip)))
 
 namespace Rot
 
